@@ -201,6 +201,35 @@ func syncFilesRule(c *Ctx, rule string, floor int) {
 			c.Guard(rule, fn, meta, "copy <disk>.meta", nil, Need{Desc: "data file copied first", Edge: successEdgesOfCall(fn, data[0])})
 			c.Guard(rule, fn, data, "copy <disk>", nil, atom("not a head file", `!strings.Contains($3[-* +len($3) -1],"volume-head")`), okOf(fn, R, fTask+"initalizeSyncProgress"))
 			c.Guard(rule, fn, nilErrorReturns(fn), "return nil", nil, atom("every disk visited", "+* -len($3) >=0"))
+			// ... and copied: no iteration moves on to the next disk without both transfers having
+			// succeeded (a `continue` for a disk that "looks the same on both sides" skips the copy)
+			var header *ssa.BasicBlock
+			for d := data[0].Block(); d != nil; d = d.Idom() {
+				if !inLoop(d) || len(d.Instrs) == 0 {
+					continue
+				}
+				if _, isIf := d.Instrs[len(d.Instrs)-1].(*ssa.If); !isIf {
+					continue
+				}
+				if _, isPhi := d.Instrs[0].(*ssa.Phi); isPhi && d != data[0].Block() {
+					header = d
+					break
+				}
+			}
+			if header == nil || len(header.Succs) != 2 || len(header.Succs[0].Instrs) == 0 {
+				c.Undecided(rule, FnName(fn)+" | every disk copied", c.P.Pos(fn.Pos()), "header of the copy loop not found")
+			} else {
+				test := header.Instrs[len(header.Instrs)-1]
+				okMeta := successEdgesOfCall(fn, meta[0])
+				ws := Query{Fn: fn, Start: header.Succs[0].Instrs[0], GenEdge: okMeta,
+					IsSite: func(in ssa.Instruction) bool { return in == test }}.Run()
+				key := FnName(fn) + " | every disk copied before the next one"
+				if len(ws) == 0 {
+					c.OK(rule, key, c.P.InstrPos(meta[0]), "the loop test is reached again only through the success of the metadata copy", true)
+				} else {
+					c.Bad(rule, key, c.P.InstrPos(test), "an iteration can move on to the next disk without having copied this one (data and metadata)", c.witness(ws[0]))
+				}
+			}
 		} else {
 			c.Bad(rule, FnName(fn)+" | copies <disk> and <disk>.meta", "", fmt.Sprintf("found %d data and %d meta copies", len(data), len(meta)), nil)
 		}
